@@ -222,6 +222,41 @@ Theorem C11_sample : forall a rk ck, rk <> [] -> ck <> [] ->
 Proof. exact sample_spec. Qed.
 Print Assumptions C11_sample.
 
+(* ================================================================== in-place operations are functions of the argument VALUES
+   (what checks/C11.py relies on when it replays a session step, a re-used receiver or an aliased call as a standalone case) *)
+(* the previous content of the receiver is irrelevant: only its dimensions matter *)
+Theorem C11_inplace_overwrites : forall d d', nr d = nr d' -> nc d = nc d' ->
+  (forall x y tx ty, D_prodMatMat d x y tx ty = D_prodMatMat d' x y tx ty) /\
+  (forall a m t, D_prodNormMatMat d a m t = D_prodNormMatMat d' a m t) /\
+  (forall a v t, D_prodNormMatVec d a v t = D_prodNormMatVec d' a v t).
+Proof. exact inplace_overwrites_dense. Qed.
+Print Assumptions C11_inplace_overwrites.
+Theorem C11_inplace_overwrites_generic : forall d d' x y tx ty, wfd d -> wfd d' -> nr d = nr d' -> nc d = nc d' ->
+  dimc tx x = dimr ty y -> nr d = dimr tx x -> nc d = dimc ty y ->
+  exists r r', G_prodMatMat false d x y tx ty = Ok r /\ G_prodMatMat false d' x y tx ty = Ok r' /\
+    nr r = nr r' /\ nc r = nc r' /\ meq (nr d) (nc d) (absd r) (absd r').
+Proof. exact inplace_overwrites_generic. Qed.
+Print Assumptions C11_inplace_overwrites_generic.
+(* copies, the same object passed twice (y := x) or distinct objects with equal entries give the same result *)
+Theorem C11_alias_agnostic : forall d x y x' y' tx ty,
+  nr x = nr x' -> nc x = nc x' -> meq (nr x) (nc x) (absd x) (absd x') ->
+  nr y = nr y' -> nc y = nc y' -> meq (nr y) (nc y) (absd y) (absd y') ->
+  dimc tx x = dimr ty y -> nr d = dimr tx x -> nc d = dimc ty y ->
+  exists r r', D_prodMatMat d x y tx ty = Ok r /\ D_prodMatMat d x' y' tx ty = Ok r' /\ meq (nr d) (nc d) (absd r) (absd r').
+Proof. exact alias_agnostic_dense. Qed.
+Print Assumptions C11_alias_agnostic.
+(* the receiver itself as an operand (AMatrix::prodMatInPlace = prodMatMatInPlace(this, y, false, ty)): on the pinned tree the
+   dense override assigns through noalias() and the generic loop reads entries it has already overwritten *)
+Theorem C11_no_ub_prodMatInPlace_refuted : exists d y ty c,
+  wfd d /\ wfd y /\ nc d = dimr ty y /\ dimc ty y = nc d /\ D_prodMatInPlace d y ty = UB c.
+Proof. exact prodMatInPlace_dense_refuted. Qed.
+Print Assumptions C11_no_ub_prodMatInPlace_refuted.
+Theorem C11_prodMatInPlace_generic_refuted : exists d y r,
+  wfd d /\ wfd y /\ nr y = nc d /\ nc y = nc d /\ G_prodMatMat_alias false d d y false false true false = Ok r /\
+  ~ meq (nr d) (nc d) (absd r) (mmul (nc d) (absd d) (absd y)).
+Proof. exact prodMatInPlace_generic_refuted. Qed.
+Print Assumptions C11_prodMatInPlace_generic_refuted.
+
 (* ================================================================== csparse kernels *)
 (* cs_triplet: the compressed-column matrix holds the accumulated triplets (duplicates add up), for every triplet list *)
 Theorem C11_cs_compress : forall T i j, abs_csc (cs_triplet T) i j == abs_trip T i j.
